@@ -456,6 +456,12 @@ class Gen:
         tags: list[str] = []
         if self.prof.get("single_tag"):
             tags = [TAGS[0]]
+        elif tags_mode < 0.08 and self.sexp:
+            # a tag spelled like one of the document's schemas (resource-named tags: tag `pet`, schema `Pet`): the tag's
+            # endpoint module and the model's module then share a file name (endpoints/pet.py, models/pet.py)
+            nm = r.choice(sorted(self.sexp))
+            tags = [r.choice([nm, nm.lower(), nm[0].lower() + nm[1:]])]
+            self.features.add("tag_named_like_a_schema")
         elif tags_mode < 0.7:
             tags = [r.choice(TAGS[: self.prof.get("ntags", 4)])]
         elif tags_mode < 0.8 and "multi_tag" in self.allow:
